@@ -8,8 +8,9 @@ that body, with their guard and with whether the body is reachable from the run-
 Generate and from `Parser.Parse`. The theorems of `P2.C10S` are generic in a write table with the hypothesis `Table.Allowed`; this
 module
 
-* classifies every reachable row (`evalAllowed`, `genAllowed`: an explicit list, one justified line per row, in the order of the
-  generated table — a row that is not listed is classified as a write to a generator table and breaks `go_table_allowed`),
+* classifies every reachable row by RULE (`clsOf`: captured locals of a running invocation, objects of types that are created per
+  evaluation / export / Parse call, the memo cell, the freeze of the derived tables — a row no rule covers is classified as a write
+  to a generator table and breaks `shared_writes_allowed`),
 * turns the classified rows into a `P2.Shared.Table` (`goTable`) and proves `goTable.Allowed` (`shared_writes_allowed`),
 * instantiates the theorems for it.
 
@@ -17,17 +18,11 @@ What the classification as `.priv` (an object of the running operation) rests on
 see it (receivers and parameters: `stackStorage.set` writes whatever storage it is called on) the line says what else establishes
 it. Package-level variables can never be classified away (`toWrite`), and neither can a captured variable whose declaring body does
 not run during evaluations (`-outlives`) on the run-time side.
-
-To add an entry keep the order of the generated table (sorted by function, target, kind, guard, base). -/
+ -/
 namespace P2.Oblig
 open P2.Generated P2.Shared
 
-/-- fn, kind, target, guard, base -/
-abbrev WKey := String × String × String × String × String
-
-def wkey (w : SharedWrite) : WKey := (w.fn, w.kind, w.target, w.guard, w.base)
-
-/-- how a listed row is classified -/
+/-- how a row is classified -/
 inductive Cls
   | priv      -- an object of the running operation
   | cell      -- the memo cell of a lazy list
@@ -41,214 +36,101 @@ def guardOf (g : String) : Guard :=
   else if g == "atomic" then .atomic
   else .lazyNil
 
-/-- a row that no list classifies: treated as a write to a generator table -/
+/-- a row that no rule classifies: treated as a write to a generator table -/
 def unlisted : Write := ⟨.cfg 0, .none, 0⟩
 
-/-- the model write of a row. A package-level variable stays one whatever the list says; on the run-time side so does a captured
-variable that outlives the evaluation. -/
-def toWrite (runtime : Bool) (w : SharedWrite) (c : Cls) : Write :=
+/-! ### The classification is by RULE, not by line
+
+A row is classified by what it writes to, never by the name of a local variable or by its position in the table, so that a
+harmless edit (a renamed or an additional local of a callback, a further field of an exporter object, a helper method on the
+value stack) leaves the obligation alone, while a write to anything that is not on these lists - a package-level variable, a
+field of the generator, of the parser, of a method table, of a generated function, an unguarded field of a list - is `unlisted`
+and breaks `shared_writes_allowed`. -/
+
+/-- rule 1: captured variables. The extractor marks a captured variable whose declaring body does not run during evaluations
+(`-outlives`: it runs inside Generate / Parse) or runs in the configuration phase only (`-config`). Without a mark the variable
+is a local of an invocation that runs during this very operation (written by a callback or a deferred function that invocation
+runs or hands out: `innerErr`, `keys`, `first`, the state of one run of `autoParallelStage`, the single-use flag of a multiUse
+copy, …). -/
+def capturedCls (runtime : Bool) (base : String) : Option Cls :=
+  if base == "captured" || base == "capturedfresh" || base == "capturedfreshpath" then some .priv
+  else if !runtime && (base == "captured-outlives" || base == "capturedfresh-outlives" || base == "capturedfreshpath-outlives") then some .priv
+  else none
+
+/-- rule 2 (run time): types whose objects are created by the evaluation (or export call) that writes them -/
+def evalPrivOwners : List String := [
+  "funcGen.Stack", "funcGen.stackStorage",  -- the value stack: NOT decidable here whether a storage is evaluation-local - it is by StackProv (every Eval / producer runs on NewEmptyStack or on the stack it is handed); the one long-lived storage is the optimizer's scratch stack, written only inside Generate
+  "listMap.ListMap", "listMap.listMapEntry", -- ListMap.Append: every caller builds a map of its own (C09 HeapMaps: persistent maps never call it on a shared ListMap)
+  "value.BinningData", "value.Binning2dData", "value.collectBinning1d", "value.collectBinning2d", -- accumulators created by the call that fills them
+  "value.Sortable", "value.SortableLess",    -- sort helper over a copy, one per sort call
+  "value.multiUseEntry",                     -- entry of the multiUse call that created it
+  "value/export.htmlExporter", "value/export.jsonListExporter", "value/export.jsonMapExporter", "value/export.sepOut", "value/export.simpleListExporter",
+  "value/export.tableExporter", "value/export.textExporter", "value/export.xmlListExporter", "value/export.xmlMapExporter", "value/export/xmlWriter.XMLWriter"] -- exporter / writer objects created per export call
+
+/-- rule 3 (run time): the remaining rows, by function and kind -/
+def evalPrivSites : List (String × String) := [
+  ("value/arg/error.go|value/arg.CatchErr", "deref"),   -- writes the named error result of its caller through the pointer the caller passes (`defer CatchErr(&err)`)
+  ("value/list.go|value.groupBy", "deref"),             -- `*l` points into the table this groupBy call has built
+  ("value/export/file.go|value/export.Data.Add", "append")] -- append onto the capacity-clipped slice of the COPY `n := *d` made in the same function (fix e58b028)
+
+/-- rule 2 (Generate / Parse): objects created by this Parse / Generate call -/
+def genPrivOwners : List String := [
+  "funcGen.argsList",                         -- argument-name list built by this Generate call
+  "parser2.Case", "parser2.ClosureLiteral", "parser2.FunctionCall", "parser2.If", "parser2.Let", "parser2.ListAccess", "parser2.ListLiteral", "parser2.MapAccess", "parser2.MapLiteral",
+  "parser2.MethodCall", "parser2.Operate", "parser2.Switch", "parser2.TryCatch", "parser2.Unary", "parser2.Const", "parser2.Ident", -- AST nodes of this Parse call (the optimizer rewrites the tree in place before it is handed out)
+  "parser2.Tokenizer", "parser2.OperatorDetector", -- tokenizer / detector of this Parse call
+  "parser2.posWriter", "parser2.writer"]      -- pretty printer state of one PrettyPrint call (debug output)
+
+/-- the builder methods `GetParser` calls on the parser object it has just created (`NewParser()`), before it is stored -/
+def parserBuilders : List String := [
+  "parser2.go|parser2.Parser.Comfort", "parser2.go|parser2.Parser.Op", "parser2.go|parser2.Parser.SetKeyWords", "parser2.go|parser2.Parser.SetNumberParser",
+  "parser2.go|parser2.Parser.SetOptimizer", "parser2.go|parser2.Parser.SetStringConverter", "parser2.go|parser2.Parser.Unary", "parser2.go|parser2.Parser.TextOperator",
+  "parser2.go|parser2.Parser.AllowComments", "parser2.go|parser2.Parser.SetNumberMatcher", "parser2.go|parser2.Parser.SetIdentMatcher"]
+
+/-- the freeze of the tables derived from the configuration on the first Generate / Parse: unsynchronised `if g.parser == nil` /
+`if p.operatorDetect == nil`, computed from the configuration only (idempotent: `derived_tables_history_independent`); by
+function AND field, so that any other field written there is unlisted -/
+def derivedSites : List (String × String) := [
+  ("funcGen/generator.go|funcGen.FunctionGenerator.GetParser", "funcGen.FunctionGenerator.parser"),
+  ("funcGen/generator.go|funcGen.FunctionGenerator.GetParser", "funcGen.FunctionGenerator.opMap"),
+  ("funcGen/generator.go|funcGen.FunctionGenerator.GetParser", "funcGen.FunctionGenerator.uMap"),
+  ("parser2.go|parser2.Parser.Parse", "parser2.Parser.operatorDetect"),
+  ("parser2.go|parser2.Parser.Parse", "parser2.unaryEntry.opPos")]
+
+def genPrivSites : List (String × String) := [
+  ("funcGen/generator.go|funcGen.argsList.copyAndAdd", "copy"),  -- argument slice built by this Generate call
+  ("token.go|parser2.NewOperatorDetector", "deref")]              -- detector node created by this call
+
+def capturedBases : List String := ["captured", "capturedfresh", "capturedfreshpath", "captured-outlives", "capturedfresh-outlives",
+  "capturedfreshpath-outlives", "captured-config", "capturedfresh-config", "capturedfreshpath-config"]
+
+def clsOf (runtime : Bool) (w : SharedWrite) : Option Cls :=
+  if capturedBases.contains w.base then capturedCls runtime w.base
+  else if runtime then
+    if w.owner == "value.List" then some .cell
+    else if evalPrivOwners.contains w.owner || evalPrivSites.contains (w.fn, w.kind) then some .priv else none
+  else
+    if derivedSites.contains (w.fn, w.target) then some .derived
+    else if genPrivOwners.contains w.owner || genPrivSites.contains (w.fn, w.kind) then some .priv
+    else if w.owner == "parser2.Parser" && parserBuilders.contains w.fn then some .priv
+    else none
+
+/-- the model write of a row. A package-level variable stays one whatever the rules say. -/
+def toWrite (runtime : Bool) (w : SharedWrite) : Write :=
   if w.base == "global" || w.kind == "pkgvar" || w.kind == "addr" then ⟨.pkg 0, guardOf w.guard, 0⟩
-  else if runtime && (w.base == "captured-outlives" || w.base == "capturedfresh-outlives" || w.base == "capturedfreshpath-outlives") then unlisted
-  else match c with
-    | .priv => ⟨.priv, guardOf w.guard, 0⟩
-    | .cell => ⟨.cell, guardOf w.guard, 0⟩
-    | .derived => if runtime then unlisted else ⟨.derived, guardOf w.guard, 0⟩
-
-/-- walk the rows and the list side by side (both in the order of the generated table); list entries without a row are skipped -/
-def classify (runtime : Bool) : Nat → List SharedWrite → List (WKey × Cls) → List Write
-  | 0, [], _ => []
-  | 0, _ :: _, _ => [unlisted]
-  | _ + 1, [], _ => []
-  | fuel + 1, _ :: rs, [] => unlisted :: classify runtime fuel rs []
-  | fuel + 1, r :: rs, (k, c) :: as =>
-    if wkey r == k then toWrite runtime r c :: classify runtime fuel rs as else classify runtime fuel (r :: rs) as
-
-/-- every write reachable from the run-time entry points, in the order of the generated table -/
-def evalAllowed : List (WKey × Cls) := [
-  (("funcGen/generator.go|funcGen.FunctionDescription.WriteTo$lit", "captured", "pos@decl", "none", "captured"), .priv), -- local of the declared function (one per call), written by a callback the function itself runs before it returns (Iter / Result / recover)
-  (("funcGen/generator.go|funcGen.FunctionGenerator.GenerateFunc$lit", "captured", "innerError@lit", "none", "captured"), .priv), -- variable of an enclosing invocation that runs during this operation, written by a callback / deferred function of it
-  (("funcGen/generator.go|funcGen.FunctionGenerator.GenerateFunc$lit", "captured", "mapValues@lit", "none", "captured"), .priv), -- variable of an enclosing invocation that runs during this operation, written by a callback / deferred function of it
-  (("funcGen/generator.go|funcGen.FunctionGenerator.generateIntern$lit", "captured", "err@lit", "none", "captured"), .priv), -- variable of an enclosing invocation that runs during this operation, written by a callback / deferred function of it
-  (("funcGen/generator.go|funcGen.FunctionGenerator.generateIntern$lit", "captured", "val@lit", "none", "captured"), .priv), -- variable of an enclosing invocation that runs during this operation, written by a callback / deferred function of it
-  (("funcGen/generator.go|funcGen.Stack.CreateFrame", "field", "funcGen.Stack.size", "none", "recv"), .priv), -- value stack: NOT decidable here whether the storage is evaluation-local - it is by StackProv (every Eval / producer runs on NewEmptyStack or on the stack it is handed); the one long-lived storage is the optimizer scratch stack of a generator, written only inside Generate
-  (("funcGen/generator.go|funcGen.Stack.Push", "field", "funcGen.Stack.size", "none", "recv"), .priv), -- value stack: NOT decidable here whether the storage is evaluation-local - it is by StackProv (every Eval / producer runs on NewEmptyStack or on the stack it is handed); the one long-lived storage is the optimizer scratch stack of a generator, written only inside Generate
-  (("funcGen/generator.go|funcGen.stackStorage.set", "field", "funcGen.stackStorage.data", "none", "recv"), .priv), -- value stack: NOT decidable here whether the storage is evaluation-local - it is by StackProv (every Eval / producer runs on NewEmptyStack or on the stack it is handed); the one long-lived storage is the optimizer scratch stack of a generator, written only inside Generate
-  (("funcGen/generator.go|funcGen.stackStorage.set", "elem", "funcGen.stackStorage.data[]", "none", "recv"), .priv), -- value stack: NOT decidable here whether the storage is evaluation-local - it is by StackProv (every Eval / producer runs on NewEmptyStack or on the stack it is handed); the one long-lived storage is the optimizer scratch stack of a generator, written only inside Generate
-  (("listMap/listMap.go|listMap.ListMap.Append", "append", "l", "none", "recv"), .priv), -- ListMap.Append: writes the slot of an existing key / appends; every caller builds a map of its own (C09 HeapMaps: persistent maps never call it on a shared ListMap)
-  (("listMap/listMap.go|listMap.ListMap.Append", "field", "listMap.listMapEntry.value", "none", "recv"), .priv), -- ListMap.Append: writes the slot of an existing key / appends; every caller builds a map of its own (C09 HeapMaps: persistent maps never call it on a shared ListMap)
-  (("parser2.go|parser2.MapLiteral.String$lit", "captured", "first@decl", "none", "captured"), .priv), -- local of the declared function (one per call), written by a callback the function itself runs before it returns (Iter / Result / recover)
-  (("value/arg/error.go|value/arg.CatchErr", "deref", "*e", "none", "param"), .priv), -- writes the named error result of its caller through the pointer the caller passes (defer CatchErr(&err))
-  (("value/binning.go|value.Binning$lit", "append", "desc", "none", "capturedfresh"), .priv), -- variable of an enclosing invocation that runs during this operation, written by a callback / deferred function of it
-  (("value/binning.go|value.Binning$lit", "captured", "desc@decl", "none", "captured"), .priv), -- local of the declared function (one per call), written by a callback the function itself runs before it returns (Iter / Result / recover)
-  (("value/binning.go|value.Binning$lit", "append", "vals", "none", "capturedfresh"), .priv), -- variable of an enclosing invocation that runs during this operation, written by a callback / deferred function of it
-  (("value/binning.go|value.Binning$lit", "captured", "vals@decl", "none", "captured"), .priv), -- local of the declared function (one per call), written by a callback the function itself runs before it returns (Iter / Result / recover)
-  (("value/binning.go|value.Binning2d$lit", "append", "bin", "none", "capturedfresh"), .priv), -- variable of an enclosing invocation that runs during this operation, written by a callback / deferred function of it
-  (("value/binning.go|value.Binning2d$lit", "captured", "bin@lit", "none", "captured"), .priv), -- variable of an enclosing invocation that runs during this operation, written by a callback / deferred function of it
-  (("value/binning.go|value.Binning2d$lit", "append", "vals", "none", "capturedfresh"), .priv), -- variable of an enclosing invocation that runs during this operation, written by a callback / deferred function of it
-  (("value/binning.go|value.Binning2d$lit", "captured", "vals@decl", "none", "captured"), .priv), -- local of the declared function (one per call), written by a callback the function itself runs before it returns (Iter / Result / recover)
-  (("value/binning.go|value.Binning2d$lit", "append", "yDesc", "none", "capturedfresh"), .priv), -- variable of an enclosing invocation that runs during this operation, written by a callback / deferred function of it
-  (("value/binning.go|value.Binning2d$lit", "captured", "yDesc@decl", "none", "captured"), .priv), -- local of the declared function (one per call), written by a callback the function itself runs before it returns (Iter / Result / recover)
-  (("value/binning.go|value.Binning2dData.Add", "elem", "value.Binning2dData.bins[][]", "none", "recv"), .priv), -- binning accumulator created by the call that fills it (NewBinning…, collectBinning)
-  (("value/binning.go|value.BinningData.Add", "elem", "value.BinningData.bins[]", "none", "recv"), .priv), -- binning accumulator created by the call that fills it (NewBinning…, collectBinning)
-  (("value/binning.go|value.collectBinning1d.add", "field", "value.collectBinning1d.vals", "unsync-lazy-init:c.vals", "recv"), .priv), -- binning accumulator created by the call that fills it (NewBinning…, collectBinning)
-  (("value/binning.go|value.collectBinning1d.add", "elem", "value.collectBinning1d.vals[]", "none", "recv"), .priv), -- binning accumulator created by the call that fills it (NewBinning…, collectBinning)
-  (("value/binning.go|value.collectBinning2d.add", "field", "value.collectBinning2d.vals", "unsync-lazy-init:c.vals", "recv"), .priv), -- binning accumulator created by the call that fills it (NewBinning…, collectBinning)
-  (("value/binning.go|value.collectBinning2d.add", "elem", "value.collectBinning2d.vals[]", "unsync-lazy-init:c.vals[i]", "recv"), .priv), -- binning accumulator created by the call that fills it (NewBinning…, collectBinning)
-  (("value/binning.go|value.collectBinning2d.add", "elem", "value.collectBinning2d.vals[][]", "none", "recv"), .priv), -- binning accumulator created by the call that fills it (NewBinning…, collectBinning)
-  (("value/binning.go|value.collectBinning2d.add", "field", "value.collectBinning2d.xd", "unsync-lazy-init:c.vals", "recv"), .priv), -- binning accumulator created by the call that fills it (NewBinning…, collectBinning)
-  (("value/binning.go|value.collectBinning2d.add", "elem", "value.collectBinning2d.xd[]", "unsync-lazy-init:c.vals[i]", "recv"), .priv), -- binning accumulator created by the call that fills it (NewBinning…, collectBinning)
-  (("value/export/export.go|value/export.Export$lit", "append", "keys", "none", "capturedfresh"), .priv), -- variable of an enclosing invocation that runs during this operation, written by a callback / deferred function of it
-  (("value/export/export.go|value/export.Export$lit", "captured", "keys@decl", "none", "captured"), .priv), -- local of the declared function (one per call), written by a callback the function itself runs before it returns (Iter / Result / recover)
-  (("value/export/file.go|value/export.Data.Add", "append", "value/export.Data.DataContent", "none", "local"), .priv), -- append onto the capacity-clipped slice of the COPY `n := *d` made in the same function (fix e58b028); listed because of the alias into the receiver
-  (("value/export/html.go|value/export.ToHtml$lit", "captured", "err@decl", "none", "captured"), .priv), -- local of the declared function (one per call), written by a callback the function itself runs before it returns (Iter / Result / recover)
-  (("value/export/html.go|value/export.ToHtml$lit", "captured", "res@decl", "none", "captured"), .priv), -- local of the declared function (one per call), written by a callback the function itself runs before it returns (Iter / Result / recover)
-  (("value/export/html.go|value/export.htmlExporter.getClassName", "field", "value/export.htmlExporter.classList", "none", "recv"), .priv), -- exporter / writer object created by the export call that uses it (New…Exporter, XML(), JSON(), htmlExporter literal)
-  (("value/export/html.go|value/export.htmlExporter.getClassName", "elem", "value/export.htmlExporter.styleMap[]", "none", "recv"), .priv), -- exporter / writer object created by the export call that uses it (New…Exporter, XML(), JSON(), htmlExporter literal)
-  (("value/export/html.go|value/export.htmlExporter.toHtml$lit", "append", "keys", "none", "capturedfresh"), .priv), -- variable of an enclosing invocation that runs during this operation, written by a callback / deferred function of it
-  (("value/export/html.go|value/export.htmlExporter.toHtml$lit", "captured", "keys@decl", "none", "captured"), .priv), -- local of the declared function (one per call), written by a callback the function itself runs before it returns (Iter / Result / recover)
-  (("value/export/html.go|value/export.simpleListExporter.add", "field", "value/export.simpleListExporter.i", "none", "recv"), .priv), -- exporter / writer object created by the export call that uses it (New…Exporter, XML(), JSON(), htmlExporter literal)
-  (("value/export/html.go|value/export.tableExporter.add", "field", "value/export.tableExporter.row", "none", "recv"), .priv), -- exporter / writer object created by the export call that uses it (New…Exporter, XML(), JSON(), htmlExporter literal)
-  (("value/export/html.go|value/export.tableExporter.open", "field", "value/export.tableExporter.tableFormat", "none", "recv"), .priv), -- exporter / writer object created by the export call that uses it (New…Exporter, XML(), JSON(), htmlExporter literal)
-  (("value/export/html.go|value/export.toStyleStr$lit", "append", "keys", "none", "capturedfresh"), .priv), -- variable of an enclosing invocation that runs during this operation, written by a callback / deferred function of it
-  (("value/export/html.go|value/export.toStyleStr$lit", "captured", "keys@decl", "none", "captured"), .priv), -- local of the declared function (one per call), written by a callback the function itself runs before it returns (Iter / Result / recover)
-  (("value/export/json.go|value/export.jsonListExporter.Add", "field", "value/export.jsonListExporter.first", "none", "recv"), .priv), -- exporter / writer object created by the export call that uses it (New…Exporter, XML(), JSON(), htmlExporter literal)
-  (("value/export/json.go|value/export.jsonMapExporter.Add", "field", "value/export.jsonMapExporter.first", "none", "recv"), .priv), -- exporter / writer object created by the export call that uses it (New…Exporter, XML(), JSON(), htmlExporter literal)
-  (("value/export/textExport.go|value/export.sepOut.out", "field", "value/export.sepOut.last", "none", "recv"), .priv), -- exporter / writer object created by the export call that uses it (New…Exporter, XML(), JSON(), htmlExporter literal)
-  (("value/export/textExport.go|value/export.textExporter.dec", "field", "value/export.textExporter.spaces", "none", "recv"), .priv), -- exporter / writer object created by the export call that uses it (New…Exporter, XML(), JSON(), htmlExporter literal)
-  (("value/export/textExport.go|value/export.textExporter.inc", "field", "value/export.textExporter.spaces", "none", "recv"), .priv), -- exporter / writer object created by the export call that uses it (New…Exporter, XML(), JSON(), htmlExporter literal)
-  (("value/export/textExport.go|value/export.textExporter.newLine", "field", "value/export.textExporter.newline", "none", "recv"), .priv), -- exporter / writer object created by the export call that uses it (New…Exporter, XML(), JSON(), htmlExporter literal)
-  (("value/export/textExport.go|value/export.textExporter.toText$lit", "append", "keys", "none", "capturedfresh"), .priv), -- variable of an enclosing invocation that runs during this operation, written by a callback / deferred function of it
-  (("value/export/textExport.go|value/export.textExporter.toText$lit", "captured", "keys@decl", "none", "captured"), .priv), -- local of the declared function (one per call), written by a callback the function itself runs before it returns (Iter / Result / recover)
-  (("value/export/textExport.go|value/export.textExporter.write", "field", "value/export.textExporter.newline", "none", "recv"), .priv), -- exporter / writer object created by the export call that uses it (New…Exporter, XML(), JSON(), htmlExporter literal)
-  (("value/export/xml.go|value/export.isSimpleMap$lit", "captured", "isSimple@decl", "none", "captured"), .priv), -- local of the declared function (one per call), written by a callback the function itself runs before it returns (Iter / Result / recover)
-  (("value/export/xmlWriter/xmlWriter.go|value/export/xmlWriter.XMLWriter.AvoidShort", "field", "value/export/xmlWriter.XMLWriter.avoidShort", "none", "recv"), .priv), -- exporter / writer object created by the export call that uses it (New…Exporter, XML(), JSON(), htmlExporter literal)
-  (("value/export/xmlWriter/xmlWriter.go|value/export/xmlWriter.XMLWriter.Close", "field", "value/export/xmlWriter.XMLWriter.depth", "none", "recv"), .priv), -- exporter / writer object created by the export call that uses it (New…Exporter, XML(), JSON(), htmlExporter literal)
-  (("value/export/xmlWriter/xmlWriter.go|value/export/xmlWriter.XMLWriter.Close", "field", "value/export/xmlWriter.XMLWriter.open", "none", "recv"), .priv), -- exporter / writer object created by the export call that uses it (New…Exporter, XML(), JSON(), htmlExporter literal)
-  (("value/export/xmlWriter/xmlWriter.go|value/export/xmlWriter.XMLWriter.Close", "field", "value/export/xmlWriter.XMLWriter.tagIsOpen", "none", "recv"), .priv), -- exporter / writer object created by the export call that uses it (New…Exporter, XML(), JSON(), htmlExporter literal)
-  (("value/export/xmlWriter/xmlWriter.go|value/export/xmlWriter.XMLWriter.Open", "field", "value/export/xmlWriter.XMLWriter.depth", "none", "recv"), .priv), -- exporter / writer object created by the export call that uses it (New…Exporter, XML(), JSON(), htmlExporter literal)
-  (("value/export/xmlWriter/xmlWriter.go|value/export/xmlWriter.XMLWriter.Open", "field", "value/export/xmlWriter.XMLWriter.inLine", "none", "recv"), .priv), -- exporter / writer object created by the export call that uses it (New…Exporter, XML(), JSON(), htmlExporter literal)
-  (("value/export/xmlWriter/xmlWriter.go|value/export/xmlWriter.XMLWriter.Open", "field", "value/export/xmlWriter.XMLWriter.open", "none", "recv"), .priv), -- exporter / writer object created by the export call that uses it (New…Exporter, XML(), JSON(), htmlExporter literal)
-  (("value/export/xmlWriter/xmlWriter.go|value/export/xmlWriter.XMLWriter.Open", "field", "value/export/xmlWriter.XMLWriter.tagIsOpen", "none", "recv"), .priv), -- exporter / writer object created by the export call that uses it (New…Exporter, XML(), JSON(), htmlExporter literal)
-  (("value/export/xmlWriter/xmlWriter.go|value/export/xmlWriter.XMLWriter.PrettyPrint", "field", "value/export/xmlWriter.XMLWriter.prettyPrint", "none", "recv"), .priv), -- exporter / writer object created by the export call that uses it (New…Exporter, XML(), JSON(), htmlExporter literal)
-  (("value/export/xmlWriter/xmlWriter.go|value/export/xmlWriter.XMLWriter.checkIndent", "field", "value/export/xmlWriter.XMLWriter.inLine", "unsync-lazy-init:w.inLine", "recv"), .priv), -- exporter / writer object created by the export call that uses it (New…Exporter, XML(), JSON(), htmlExporter literal)
-  (("value/export/xmlWriter/xmlWriter.go|value/export/xmlWriter.XMLWriter.checkOpenTag", "field", "value/export/xmlWriter.XMLWriter.tagIsOpen", "none", "recv"), .priv), -- exporter / writer object created by the export call that uses it (New…Exporter, XML(), JSON(), htmlExporter literal)
-  (("value/export/xmlWriter/xmlWriter.go|value/export/xmlWriter.XMLWriter.newLine", "field", "value/export/xmlWriter.XMLWriter.inLine", "none", "recv"), .priv), -- exporter / writer object created by the export call that uses it (New…Exporter, XML(), JSON(), htmlExporter literal)
-  (("value/list.go|value.List.Accept$lit", "captured", "res@lit", "none", "captured"), .priv), -- variable of an enclosing invocation that runs during this operation, written by a callback / deferred function of it
-  (("value/list.go|value.List.Append", "append", "value.List.items", "mutex:l.mu", "recv"), .cell), -- THE memo cell (P2.Memo): stored under the list mutex l.mu, taken in the first statement of the method (MemoCell obligations)
-  (("value/list.go|value.List.Append", "field", "value.List.items", "mutex:l.mu", "recv"), .cell), -- THE memo cell (P2.Memo): stored under the list mutex l.mu, taken in the first statement of the method (MemoCell obligations)
-  (("value/list.go|value.List.Eval", "field", "value.List.items", "mutex:l.mu", "recv"), .cell), -- THE memo cell (P2.Memo): stored under the list mutex l.mu, taken in the first statement of the method (MemoCell obligations)
-  (("value/list.go|value.List.Eval", "field", "value.List.itemsPresent", "mutex:l.mu", "recv"), .cell), -- THE memo cell (P2.Memo): stored under the list mutex l.mu, taken in the first statement of the method (MemoCell obligations)
-  (("value/list.go|value.List.Eval", "field", "value.List.producer", "mutex:l.mu", "recv"), .cell), -- THE memo cell (P2.Memo): stored under the list mutex l.mu, taken in the first statement of the method (MemoCell obligations)
-  (("value/list.go|value.List.Map$lit", "captured", "res@lit", "none", "captured"), .priv), -- variable of an enclosing invocation that runs during this operation, written by a callback / deferred function of it
-  (("value/list.go|value.Sortable.Swap", "elem", "value.Sortable.items[]", "none", "recv"), .priv), -- sort helper created by the sorting method on a COPY of the items (CopyToSlice) for this call
-  (("value/list.go|value.Sortable.registerError", "field", "value.Sortable.err", "unsync-lazy-init:s.err", "recv"), .priv), -- sort helper created by the sorting method on a COPY of the items (CopyToSlice) for this call
-  (("value/list.go|value.SortableLess.Less", "field", "value.SortableLess.err", "unsync-lazy-init:s.err", "recv"), .priv), -- sort helper created by the sorting method on a COPY of the items (CopyToSlice) for this call
-  (("value/list.go|value.SortableLess.Swap", "elem", "value.SortableLess.items[]", "none", "recv"), .priv), -- sort helper created by the sorting method on a COPY of the items (CopyToSlice) for this call
-  (("value/list.go|value.autoParallelStage$lit", "captured", "consumerPanic@lit", "none", "captured"), .priv), -- variable of an enclosing invocation that runs during this operation, written by a callback / deferred function of it
-  (("value/list.go|value.autoParallelStage$lit", "captured", "cont@lit", "none", "captured"), .priv), -- variable of an enclosing invocation that runs during this operation, written by a callback / deferred function of it
-  (("value/list.go|value.autoParallelStage$lit", "atomic", "stopped", "atomic", "captured"), .priv), -- local of the declared function (one per call), written by a callback the function itself runs before it returns (Iter / Result / recover)
-  (("value/list.go|value.autoParallelStage$lit", "atomic", "workers", "atomic", "captured"), .priv), -- local of the declared function (one per call), written by a callback the function itself runs before it returns (Iter / Result / recover)
-  (("value/list.go|value.deepEvalLists$lit", "captured", "innerErr@decl", "none", "captured"), .priv), -- local of the declared function (one per call), written by a callback the function itself runs before it returns (Iter / Result / recover)
-  (("value/list.go|value.groupBy", "deref", "*l", "none", "local"), .priv), -- `*l = append(*l, v)`: l points into the slice table groupBy has just built for this call
-  (("value/map.go|value.Map.Accept$lit", "captured", "innerErr@decl", "none", "captured"), .priv), -- local of the declared function (one per call), written by a callback the function itself runs before it returns (Iter / Result / recover)
-  (("value/map.go|value.Map.Accept$lit", "captured", "newMap@decl", "none", "captured"), .priv), -- local of the declared function (one per call), written by a callback the function itself runs before it returns (Iter / Result / recover)
-  (("value/map.go|value.Map.Combine$lit", "captured", "innerErr@decl", "none", "captured"), .priv), -- local of the declared function (one per call), written by a callback the function itself runs before it returns (Iter / Result / recover)
-  (("value/map.go|value.Map.Combine$lit", "captured", "result@decl", "none", "captured"), .priv), -- local of the declared function (one per call), written by a callback the function itself runs before it returns (Iter / Result / recover)
-  (("value/map.go|value.Map.Equals$lit", "captured", "eq@decl", "none", "captured"), .priv), -- local of the declared function (one per call), written by a callback the function itself runs before it returns (Iter / Result / recover)
-  (("value/map.go|value.Map.Equals$lit", "captured", "innerErr@decl", "none", "captured"), .priv), -- local of the declared function (one per call), written by a callback the function itself runs before it returns (Iter / Result / recover)
-  (("value/map.go|value.Map.Eval$lit", "elem", "rm[]", "none", "capturedfresh"), .priv), -- variable of an enclosing invocation that runs during this operation, written by a callback / deferred function of it
-  (("value/map.go|value.Map.Map$lit", "captured", "innerErr@decl", "none", "captured"), .priv), -- local of the declared function (one per call), written by a callback the function itself runs before it returns (Iter / Result / recover)
-  (("value/map.go|value.Map.Map$lit", "captured", "newMap@decl", "none", "captured"), .priv), -- local of the declared function (one per call), written by a callback the function itself runs before it returns (Iter / Result / recover)
-  (("value/map.go|value.Map.Merge$lit", "captured", "exists@decl", "none", "captured"), .priv), -- local of the declared function (one per call), written by a callback the function itself runs before it returns (Iter / Result / recover)
-  (("value/map.go|value.Map.Merge$lit", "captured", "found@decl", "none", "captured"), .priv), -- local of the declared function (one per call), written by a callback the function itself runs before it returns (Iter / Result / recover)
-  (("value/map.go|value.Map.ToString$lit", "captured", "first@decl", "none", "captured"), .priv), -- local of the declared function (one per call), written by a callback the function itself runs before it returns (Iter / Result / recover)
-  (("value/map.go|value.Map.ToString$lit", "captured", "innerErr@decl", "none", "captured"), .priv), -- local of the declared function (one per call), written by a callback the function itself runs before it returns (Iter / Result / recover)
-  (("value/map.go|value.Map.keyListDescription$lit", "append", "keys", "none", "capturedfresh"), .priv), -- variable of an enclosing invocation that runs during this operation, written by a callback / deferred function of it
-  (("value/map.go|value.Map.keyListDescription$lit", "captured", "keys@decl", "none", "captured"), .priv), -- local of the declared function (one per call), written by a callback the function itself runs before it returns (Iter / Result / recover)
-  (("value/map.go|value.ReplaceMap.createFlat$lit", "captured", "lm@decl", "none", "captured"), .priv), -- local of the declared function (one per call), written by a callback the function itself runs before it returns (Iter / Result / recover)
-  (("value/map.go|value.ReplaceMap.createFlat$lit", "elem", "rm[]", "none", "capturedfresh"), .priv), -- variable of an enclosing invocation that runs during this operation, written by a callback / deferred function of it
-  (("value/multiUse.go|value.multiUseEntry.runConsumer", "field", "value.multiUseEntry.result", "none", "recv"), .priv), -- entry of the multiUse call that created it
-  (("value/multiUse.go|value.multiUseEntry.runConsumer$lit", "captured", "innerErr@decl", "none", "captured"), .priv), -- local of the declared function (one per call), written by a callback the function itself runs before it returns (Iter / Result / recover)
-  (("value/multiUse.go|value.multiUseEntry.runConsumer$lit", "captured", "used@decl", "none", "captured"), .priv), -- local of the declared function (one per call), written by a callback the function itself runs before it returns (Iter / Result / recover)
-  (("value/value.go|value.FunctionGenerator.GenerateCustom$lit", "captured", "err@lit", "none", "captured"), .priv), -- variable of an enclosing invocation that runs during this operation, written by a callback / deferred function of it
-  (("value/value.go|value.FunctionGenerator.GenerateCustom$lit", "captured", "v@lit", "none", "captured"), .priv) --- variable of an enclosing invocation that runs during this operation, written by a callback / deferred function of it
-]
-
-/-- every write reachable from Generate / Parse that is not reachable from an evaluation -/
-def genAllowed : List (WKey × Cls) := [
-  (("funcGen/generator.go|funcGen.FunctionGenerator.GetParser", "field", "funcGen.FunctionGenerator.opMap", "unsync-lazy-init:g.parser", "recv"), .derived), -- freeze of the derived tables on the first Generate: unsynchronised `if g.parser == nil`, computed from the configuration only; the builder methods panic once g.parser is set
-  (("funcGen/generator.go|funcGen.FunctionGenerator.GetParser", "field", "funcGen.FunctionGenerator.parser", "unsync-lazy-init:g.parser", "recv"), .derived), -- freeze of the derived tables on the first Generate: unsynchronised `if g.parser == nil`, computed from the configuration only; the builder methods panic once g.parser is set
-  (("funcGen/generator.go|funcGen.FunctionGenerator.GetParser", "field", "funcGen.FunctionGenerator.uMap", "unsync-lazy-init:g.parser", "recv"), .derived), -- freeze of the derived tables on the first Generate: unsynchronised `if g.parser == nil`, computed from the configuration only; the builder methods panic once g.parser is set
-  (("funcGen/generator.go|funcGen.FunctionGenerator.genCodeMap$lit", "captured", "args@decl", "none", "captured-outlives"), .priv), -- local of the declared function (one per call), written by a callback the function itself runs before it returns (Iter / Result / recover)
-  (("funcGen/generator.go|funcGen.FunctionGenerator.genCodeMap$lit", "captured", "err@decl", "none", "captured-outlives"), .priv), -- local of the declared function (one per call), written by a callback the function itself runs before it returns (Iter / Result / recover)
-  (("funcGen/generator.go|funcGen.FunctionGenerator.genCodeMap$lit", "captured", "pure@decl", "none", "captured-outlives"), .priv), -- local of the declared function (one per call), written by a callback the function itself runs before it returns (Iter / Result / recover)
-  (("funcGen/generator.go|funcGen.argsList.add", "append", "am", "none", "recv"), .priv), -- argument-name list / argument slice built by this Generate call
-  (("funcGen/generator.go|funcGen.argsList.copyAndAdd", "copy", "n", "none", "local"), .priv), -- argument-name list / argument slice built by this Generate call
-  (("parser2.go|parser2.ClosureLiteral.Optimize", "field", "parser2.ClosureLiteral.Func", "none", "recv"), .priv), -- AST node created by this Parse call (the optimizer rewrites the tree in place before it is handed out)
-  (("parser2.go|parser2.FunctionCall.Optimize", "elem", "parser2.FunctionCall.Args[]", "none", "recv"), .priv), -- AST node created by this Parse call (the optimizer rewrites the tree in place before it is handed out)
-  (("parser2.go|parser2.FunctionCall.Optimize", "field", "parser2.FunctionCall.Func", "none", "recv"), .priv), -- AST node created by this Parse call (the optimizer rewrites the tree in place before it is handed out)
-  (("parser2.go|parser2.Identifiers.AddArgs$lit", "deref", "*outersUsed", "none", "captured-outlives"), .priv), -- local of the declared function (one per call), written by a callback the function itself runs before it returns (Iter / Result / recover)
-  (("parser2.go|parser2.Identifiers.AddThis$lit", "deref", "*used", "none", "captured-outlives"), .priv), -- local of the declared function (one per call), written by a callback the function itself runs before it returns (Iter / Result / recover)
-  (("parser2.go|parser2.If.Optimize", "field", "parser2.If.Cond", "none", "recv"), .priv), -- AST node created by this Parse call (the optimizer rewrites the tree in place before it is handed out)
-  (("parser2.go|parser2.If.Optimize", "field", "parser2.If.Else", "none", "recv"), .priv), -- AST node created by this Parse call (the optimizer rewrites the tree in place before it is handed out)
-  (("parser2.go|parser2.If.Optimize", "field", "parser2.If.Then", "none", "recv"), .priv), -- AST node created by this Parse call (the optimizer rewrites the tree in place before it is handed out)
-  (("parser2.go|parser2.Let.Optimize", "field", "parser2.Let.Inner", "none", "recv"), .priv), -- AST node created by this Parse call (the optimizer rewrites the tree in place before it is handed out)
-  (("parser2.go|parser2.ListAccess.Optimize", "field", "parser2.ListAccess.Index", "none", "recv"), .priv), -- AST node created by this Parse call (the optimizer rewrites the tree in place before it is handed out)
-  (("parser2.go|parser2.ListAccess.Optimize", "field", "parser2.ListAccess.List", "none", "recv"), .priv), -- AST node created by this Parse call (the optimizer rewrites the tree in place before it is handed out)
-  (("parser2.go|parser2.ListLiteral.Optimize", "elem", "parser2.ListLiteral.List[]", "none", "recv"), .priv), -- AST node created by this Parse call (the optimizer rewrites the tree in place before it is handed out)
-  (("parser2.go|parser2.MapAccess.Optimize", "field", "parser2.MapAccess.MapValue", "none", "recv"), .priv), -- AST node created by this Parse call (the optimizer rewrites the tree in place before it is handed out)
-  (("parser2.go|parser2.MethodCall.Optimize", "elem", "parser2.MethodCall.Args[]", "none", "recv"), .priv), -- AST node created by this Parse call (the optimizer rewrites the tree in place before it is handed out)
-  (("parser2.go|parser2.MethodCall.Optimize", "field", "parser2.MethodCall.Value", "none", "recv"), .priv), -- AST node created by this Parse call (the optimizer rewrites the tree in place before it is handed out)
-  (("parser2.go|parser2.Operate.Optimize", "field", "parser2.Operate.A", "none", "recv"), .priv), -- AST node created by this Parse call (the optimizer rewrites the tree in place before it is handed out)
-  (("parser2.go|parser2.Operate.Optimize", "field", "parser2.Operate.B", "none", "recv"), .priv), -- AST node created by this Parse call (the optimizer rewrites the tree in place before it is handed out)
-  (("parser2.go|parser2.Optimize$lit", "captured", "astRet@decl", "none", "captured-outlives"), .priv), -- local of the declared function (one per call), written by a callback the function itself runs before it returns (Iter / Result / recover)
-  (("parser2.go|parser2.Parser.Comfort", "field", "parser2.Parser.comfort", "none", "recv"), .priv), -- builder call on the parser object GetParser has just created (NewParser()), before it is stored
-  (("parser2.go|parser2.Parser.Op", "field", "parser2.Parser.operators", "none", "recv"), .priv), -- builder call on the parser object GetParser has just created (NewParser()), before it is stored
-  (("parser2.go|parser2.Parser.Op", "field", "parser2.Parser.operators", "unsync-lazy-init:p.operators", "recv"), .priv), -- builder call on the parser object GetParser has just created (NewParser()), before it is stored
-  (("parser2.go|parser2.Parser.Parse", "field", "parser2.Parser.operatorDetect", "unsync-lazy-init:p.operatorDetect", "recv"), .derived), -- freeze of the operator detector / unary positions on the first Parse: unsynchronised `if p.operatorDetect == nil`, computed from operators and unary only
-  (("parser2.go|parser2.Parser.Parse", "field", "parser2.unaryEntry.opPos", "unsync-lazy-init:p.operatorDetect", "local"), .derived), -- freeze of the operator detector / unary positions on the first Parse: unsynchronised `if p.operatorDetect == nil`, computed from operators and unary only
-  (("parser2.go|parser2.Parser.SetKeyWords", "field", "parser2.Parser.keyWords", "none", "recv"), .priv), -- builder call on the parser object GetParser has just created (NewParser()), before it is stored
-  (("parser2.go|parser2.Parser.SetNumberParser", "field", "parser2.Parser.numberParser", "none", "recv"), .priv), -- builder call on the parser object GetParser has just created (NewParser()), before it is stored
-  (("parser2.go|parser2.Parser.SetOptimizer", "field", "parser2.Parser.optimizer", "none", "recv"), .priv), -- builder call on the parser object GetParser has just created (NewParser()), before it is stored
-  (("parser2.go|parser2.Parser.SetStringConverter", "field", "parser2.Parser.stringHandler", "none", "recv"), .priv), -- builder call on the parser object GetParser has just created (NewParser()), before it is stored
-  (("parser2.go|parser2.Parser.Unary", "elem", "parser2.Parser.unary[]", "none", "recv"), .priv), -- builder call on the parser object GetParser has just created (NewParser()), before it is stored
-  (("parser2.go|parser2.Switch.Optimize", "field", "parser2.Case.Value", "none", "recv"), .priv), -- AST node created by this Parse call (the optimizer rewrites the tree in place before it is handed out)
-  (("parser2.go|parser2.Switch.Optimize", "field", "parser2.Switch.Default", "none", "recv"), .priv), -- AST node created by this Parse call (the optimizer rewrites the tree in place before it is handed out)
-  (("parser2.go|parser2.Switch.Optimize", "field", "parser2.Switch.SwitchValue", "none", "recv"), .priv), -- AST node created by this Parse call (the optimizer rewrites the tree in place before it is handed out)
-  (("parser2.go|parser2.TryCatch.Optimize", "field", "parser2.TryCatch.Catch", "none", "recv"), .priv), -- AST node created by this Parse call (the optimizer rewrites the tree in place before it is handed out)
-  (("parser2.go|parser2.TryCatch.Optimize", "field", "parser2.TryCatch.Try", "none", "recv"), .priv), -- AST node created by this Parse call (the optimizer rewrites the tree in place before it is handed out)
-  (("parser2.go|parser2.Unary.Optimize", "field", "parser2.Unary.Value", "none", "recv"), .priv), -- AST node created by this Parse call (the optimizer rewrites the tree in place before it is handed out)
-  (("parser2.go|parser2.simpleNumber$lit", "captured", "last@decl", "none", "captured-outlives"), .priv), -- local of the declared function (one per call), written by a callback the function itself runs before it returns (Iter / Result / recover)
-  (("prettyPrint.go|parser2.posWriter.newLine", "field", "parser2.posWriter.col", "none", "recv"), .priv), -- pretty printer state of one PrettyPrint call (debug output)
-  (("prettyPrint.go|parser2.posWriter.writeString", "field", "parser2.posWriter.col", "none", "recv"), .priv), -- pretty printer state of one PrettyPrint call (debug output)
-  (("prettyPrint.go|parser2.writeArgs$lit", "captured", "cmplx@decl", "none", "captured-outlives"), .priv), -- local of the declared function (one per call), written by a callback the function itself runs before it returns (Iter / Result / recover)
-  (("token.go|parser2.NewOperatorDetector", "deref", "*l", "none", "local"), .priv), -- tokenizer / detector node created by this Parse call
-  (("token.go|parser2.Tokenizer.Next", "field", "parser2.Tokenizer.tokenAvail", "none", "recv"), .priv), -- tokenizer / detector node created by this Parse call
-  (("token.go|parser2.Tokenizer.Next", "elem", "parser2.Tokenizer.token[]", "none", "recv"), .priv), -- tokenizer / detector node created by this Parse call
-  (("token.go|parser2.Tokenizer.SetComfort", "field", "parser2.Tokenizer.comfortEnabled", "none", "recv"), .priv), -- tokenizer / detector node created by this Parse call
-  (("token.go|parser2.Tokenizer.SetComments", "field", "parser2.Tokenizer.allowComments", "none", "recv"), .priv), -- tokenizer / detector node created by this Parse call
-  (("token.go|parser2.Tokenizer.SetKeyWords", "elem", "parser2.Tokenizer.keyWord[]", "none", "recv"), .priv), -- tokenizer / detector node created by this Parse call
-  (("token.go|parser2.Tokenizer.SetTextOperators", "field", "parser2.Tokenizer.textOperators", "none", "recv"), .priv), -- tokenizer / detector node created by this Parse call
-  (("token.go|parser2.Tokenizer.consume", "field", "parser2.Tokenizer.isLast", "none", "recv"), .priv), -- tokenizer / detector node created by this Parse call
-  (("token.go|parser2.Tokenizer.forward", "field", "parser2.Tokenizer.tokenAvail", "none", "recv"), .priv), -- tokenizer / detector node created by this Parse call
-  (("token.go|parser2.Tokenizer.forward", "elem", "parser2.Tokenizer.token[]", "none", "recv"), .priv), -- tokenizer / detector node created by this Parse call
-  (("token.go|parser2.Tokenizer.peek", "field", "parser2.Tokenizer.isLast", "none", "recv"), .priv), -- tokenizer / detector node created by this Parse call
-  (("token.go|parser2.Tokenizer.peek", "field", "parser2.Tokenizer.last", "none", "recv"), .priv), -- tokenizer / detector node created by this Parse call
-  (("token.go|parser2.Tokenizer.peek", "field", "parser2.Tokenizer.lastStr", "none", "recv"), .priv), -- tokenizer / detector node created by this Parse call
-  (("token.go|parser2.Tokenizer.peek", "field", "parser2.Tokenizer.line", "none", "recv"), .priv), -- tokenizer / detector node created by this Parse call
-  (("token.go|parser2.Tokenizer.peek", "field", "parser2.Tokenizer.str", "none", "recv"), .priv), -- tokenizer / detector node created by this Parse call
-  (("token.go|parser2.Tokenizer.run", "field", "parser2.Tokenizer.line", "none", "recv"), .priv), -- tokenizer / detector node created by this Parse call
-  (("token.go|parser2.Tokenizer.unread", "field", "parser2.Tokenizer.isLast", "none", "recv"), .priv), -- tokenizer / detector node created by this Parse call
-  (("token.go|parser2.Tokenizer.unread", "field", "parser2.Tokenizer.str", "none", "recv"), .priv) --- tokenizer / detector node created by this Parse call
-]
+  else match clsOf runtime w with
+    | some .priv => ⟨.priv, guardOf w.guard, 0⟩
+    | some .cell => ⟨.cell, guardOf w.guard, 0⟩
+    | some .derived => ⟨.derived, guardOf w.guard, 0⟩
+    | none => unlisted
 
 def evalRows : List SharedWrite := sharedWrites.filter (·.eval)
 def genRows : List SharedWrite := sharedWrites.filter (fun w => !w.eval && (w.gen || w.parse))
 
 /-- today's code as a write table of the model -/
 def goTable : Table where
-  evalW := classify true (evalRows.length + evalAllowed.length) evalRows evalAllowed
-  genW := classify false (genRows.length + genAllowed.length) genRows genAllowed
+  evalW := evalRows.map (toWrite true)
+  genW := genRows.map (toWrite false)
   parseW := []      -- Parse is reachable from Generate: its rows are in `genW`
   newW := []        -- `value.New` / `funcGen.New` write the generator they create (see `config_written_by_builders_only`)
 
